@@ -22,4 +22,12 @@ CLAIMED['C11'] = dict(
     technique='AST->z3 bit-vector translation of valid/_match (unsat for all sets) + CrossHair-engine symbolic execution over category indices',
     design='5 C11')
 
+CLAIMED['C09'] = dict(
+    engine='E2+E1',
+    text='SMT validity plus bounded model checking. E2: AgnosticPitch.get_chroma and to_transposed are translated from their current source to z3 integer terms with ITE tables built from the live Chromas / ChromasByValue / IntervalsByName objects; exact letter+semitone arithmetic, the inverse law, P1 identity, the octave law and P4+P5=octave are unsat-checked for every table name with at most two accidentals, all 40 intervals, both directions and EVERY integer octave (83 queries). '
+         'E1: kernpy.transpose end to end on the 7x5x{octaves}x40x2 spelling grid (solver-enumerated selectors, 11 200 quick / 25 200 thorough) against an independent letter/semitone model; live table sanity.',
+    note=NOTE + 'E2 models the AgnosticPitch constructor as a record (name setter validated as identity on the table names) and KeyError as a distinguished value; results not spellable with two accidentals are unconstrained, as the property says.',
+    technique='AST->z3 integer translation of get_chroma/to_transposed with live tables (unsat for all octaves) + CrossHair-engine enumeration of the spelling grid',
+    design='5 C09')
+
 PENDING_REASON = 'check under construction in this session (to be claimed; see DESIGN.md section 5)'
